@@ -330,7 +330,8 @@ impl C11 {
                     q.index, q.outstanding, missing
                 ));
             }
-            if q.index == 0 {
+            // (with nothing required by the root the first requests belong to soft requirements)
+            if q.index == 0 && !root_names.is_empty() {
                 let mut first: Vec<u32> = q
                     .outstanding
                     .iter()
